@@ -80,6 +80,18 @@ func (g *Gen) pickAddr() common.Address {
 
 func (g *Gen) pickEOA() common.Address { return eoas[g.r.Intn(len(eoas))] }
 
+// pickSource: any address of the universe except the AUTH authority. The authority's account nonce is baked into the
+// AUTHCALL code before every block (the model takes the authorisation as valid); a transaction sent by the authority
+// itself would bump that nonce inside the block and make the AUTHCALL answer "nonce too low".
+func (g *Gen) pickSource() common.Address {
+	for {
+		a := g.pickAddr()
+		if a != authorityAddr() {
+			return a
+		}
+	}
+}
+
 // mixCase renders an address key the way a user might: 0x prefix or not, mixed case.
 func (g *Gen) addrKey(a common.Address) string {
 	s := fmt.Sprintf("%x", a[:])
@@ -729,7 +741,7 @@ func (g *Gen) operatorTx() {
 	w := g.w
 	src := g.pickEOA()
 	if g.r.Chance(1, 12) {
-		src = g.pickAddr()
+		src = g.pickSource()
 	}
 	if g.r.Chance(1, 25) {
 		w.QueueOperator(src, nil, true)
@@ -839,7 +851,7 @@ func (g *Gen) contractTx(first bool) {
 			c.Src = rich[g.r.Intn(len(rich))]
 		}
 	} else if g.r.Chance(1, 4) {
-		c.Src = g.pickAddr()
+		c.Src = g.pickSource()
 	}
 	bal := w.adb.GetBalance(c.Src)
 	if first && g.r.Chance(1, 5) {
